@@ -267,6 +267,7 @@ class Session:
         self.harness_notes: List[str] = []
         self.triples: List[str] = []
         self.parse_steps = 0
+        self.recent: Dict[str, str] = {}
 
     # ---- helpers
     def count(self, k: str, n: int = 1) -> None:
@@ -532,6 +533,9 @@ class Session:
             if item is not None and dst.startswith(kind):
                 self.pool[dst] = item
                 self.snap[dst] = cn.canon(item)
+                self.recent[kind] = dst
+                if '"0x0.0p+0"]]' in __import__("json").dumps(self.snap[dst].get("C", [0, 0, self.snap[dst], self.snap[dst]])[2:]):
+                    self.count("zero_coeff_terms_in_pool")
                 self.count("pool_updates")
 
     def after_error(self, i: int, name: str, step: Dict, can: Dict[str, Any]) -> None:
@@ -584,6 +588,7 @@ class Session:
             "nontrivial": nontrivial,
             "triples": self.triples,
             "plan": self.plan,
+            "zero_terms": self.stats.get("zero_coeff_terms_in_pool", 0),
         }
 
 
